@@ -357,3 +357,34 @@ def s6(ctx):
         key = base if ordinal[base] == 1 else '%s#%d' % (base, ordinal[base])
         obs.append(Ob('S6', key, ok, why, f.loc(e.node)))
     return obs
+
+
+@rule('S8', floor=20, title='a FanoutCache method has the same parameter defaults as the Cache method it stands for')
+def s8(ctx):
+    """Sibling agreement: callers may swap Cache for FanoutCache; a different default (retry, default, delta, expire,
+    read, side, prefix ...) makes the sharded cache behave differently for the same call."""
+    obs = []
+    fc = ctx.prog.classes['FanoutCache']
+    cc = ctx.prog.classes['Cache']
+    for name, f in sorted(fc.methods.items()):
+        g = cc.methods.get(name)
+        if g is None or f.is_property or name.startswith('_') and not name.startswith('__') or name in ('__init__', 'transact'):
+            continue
+        # resolve class-level aliases (FanoutCache.memoize = Cache.memoize): same object, nothing to compare
+        if f is g:
+            continue
+        for p in f.params:
+            if p not in g.params:
+                continue
+            df, dg = f.defaults.get(p), g.defaults.get(p)
+            same = (df is None and dg is None) or (df is not None and dg is not None and ast.dump(df) == ast.dump(dg))
+            if not same and df is not None and dg is not None:
+                try:
+                    same = ctx.fold(df, f.module) == ctx.fold(dg, g.module)
+                except ValueError:
+                    same = False
+            obs.append(Ob('S8', 'FanoutCache.%s/%s' % (name, p), same,
+                          'FanoutCache.%s(%s=%s) but Cache.%s(%s=%s): the same call behaves differently on a sharded '
+                          'cache' % (name, p, ast.unparse(df) if df is not None else '<required>', name, p,
+                                     ast.unparse(dg) if dg is not None else '<required>'), f.loc()))
+    return obs
